@@ -160,6 +160,9 @@ func positiveControl() error {
 
 var etypes = ref.ETypes
 
+// oddValues: see Op.Odd.
+var oddValues = []string{"valid-until", "auth-time", "attr-nan", "attr-func", "kt-timestamp"}
+
 func genOp(t *rapid.T, first bool) Op {
 	kinds := []string{"login", "login", "login", "ticket", "ticket", "ticket", "apreq", "apreq", "apreq", "spnego", "spnego", "spnego",
 		"minted", "minted", "minted", "kpasswd", "kpasswd", "basic", "affirm", "destroy", "new-client", "new-client"}
@@ -186,6 +189,9 @@ func genOp(t *rapid.T, first bool) Op {
 		op.Cred = rapid.SampledFrom([]string{"pw", "pw", "pw", "kt", "kt", "kt", "ccache", "ccache", "pw-wrong", "kt-wrong"}).Draw(t, "cred")
 		op.PA = rapid.IntRange(0, 3).Draw(t, "assume-pa") == 0
 		op.FAST = rapid.IntRange(0, 3).Draw(t, "fast") == 0
+		if rapid.IntRange(0, 3).Draw(t, "odd") == 0 {
+			op.Odd = rapid.SampledFrom(oddValues).Draw(t, "odd-value")
+		}
 	case "login", "affirm":
 		fault("AS")
 	case "ticket":
@@ -290,6 +296,14 @@ func scriptedSeqs(r *evid.Run) []SeqCase {
 			for _, pre := range []bool{false, true} {
 				add(et, pre, ci%2 == 1, Op{Kind: "new-client", Cred: cred, PA: pre && ci%2 == 0, FAST: ci == 0}, Op{Kind: "login"}, Op{Kind: "ticket", SPN: "known", PAC: "good"},
 					Op{Kind: "ticket", SPN: "unknown"}, Op{Kind: "apreq", SubKey: true, PAC: "good"}, Op{Kind: "spnego", SessMgr: "memory", PAC: "good"}, Op{Kind: "destroy"}, Op{Kind: "login"})
+			}
+		}
+		// clients holding a value that encoding/json refuses, with every kind of credentials
+		for oi, odd := range oddValues {
+			for ci, cred := range clientCreds {
+				if quickSlice(oi + ci) {
+					add(et, false, false, Op{Kind: "new-client", Cred: cred, Odd: odd}, Op{Kind: "login"}, Op{Kind: "ticket", SPN: "known"}, Op{Kind: "destroy"})
+				}
 			}
 		}
 		// renewals: a cached service ticket that has expired but is renewable; a TGT in the last sixth of its life
